@@ -50,6 +50,14 @@ rollback -- the driver transaction with its pending writes survives (on SQLite a
 is committed by the next commit; (2) a handle_error listener that sets ``is_disconnect=True`` for the
 ResourceClosedError raised by ``begin()`` on a closed Connection trips ``assert dbapi_conn_wrapper is not None``.
 
+Outage family (both tiers, shard "outage" per configuration): the global fault bound cannot express "the database is
+down for a while", so a targeted family adds it: <prefix>; the database goes down (every connection dies, every
+connect() fails with the disconnect-class error); an operation that hits the disconnect; rollback(); 1..2 operations
+whose transparent reconnect fails; the database is back; an operation that reconnects; then every operation with one
+plain (thorough: also disconnect-class) error at every driver-call position -- judged by the same clauses.
+The canonical state also contains the Connection's private transaction / error-handler bookkeeping (for dedupe only),
+so histories that differ only in such hidden state are both explored.
+
 Mutations caught (private copy, README rule 6; each gave VIOLATION lines on the quick tier):
  M2  engine/base.py _revalidate_connection: `_invalid_transaction()` check removed              -> silent-continuation
  M3  _handle_dbapi_exception: `pool._invalidate(...)` never called                              -> retired-connection-used
@@ -59,6 +67,11 @@ Mutations caught (private copy, README rule 6; each gave VIOLATION lines on the 
  M10 _handle_dbapi_exception: listener's `ctx.is_disconnect` ignored                            -> P1-not-invalidated (force_true)
  M11 pool/base.py _ConnectionFairy.invalidate: always soft                                      -> invalidated-without-disconnect
  M12 pool/base.py get_connection: `_invalidate_time > starttime` reversed                       -> retired-connection-used
+ M13 _handle_dbapi_exception: `del self._is_disconnect` only when not yet invalidated (sticky after a failed reconnect)
+     -> invalidated-without-disconnect (outage family); M14 same, only when the pool is invalidated too -> same
+ M15 RootTransaction._close_impl: `in_nested_transaction()` instead of `_nested_transaction` (inactive savepoint stays
+     attached after a failed RELEASE) -> spurious-raise PendingRollbackError; M16 NestedTransaction._cancel without
+     `_deactivate_from_connection()` -> same
 """
 from __future__ import annotations
 
